@@ -29,8 +29,8 @@ def exT : Tree :=
 /-- a `For` wrapper that takes the block as its body -/
 def forCtor (l : Nat) : List Tree → Tree := fun nodes => .mk l 1 nodes []
 
-/-- a NON-direct wrapper, `For(body=[If(cond, block)])` — the shape `add_loop(guard=True)` built with
-    a single `_wrap` before 7d3e13bb -/
+/-- a NON-direct wrapper, `For(body=[If(cond, block)])` — what `DoAddLoop(guard=True)` passes to its
+    single `_wrap` (F16) -/
 def guardCtor (l : Nat) : List Tree → Tree := fun nodes => .mk l 1 [.mk (l + 1) 2 nodes []] []
 
 theorem forCtor_direct (l : Nat) : WrapDirect (forCtor l) .body := fun _ => rfl
@@ -268,7 +268,7 @@ theorem wrap_never_invalid (bp : Path) (a : Attr) (lo hi : Nat) (wa : Attr) (p :
     simp only [wrapFn] at hf
     split at hf <;> (try split at hf) <;> simp at hf
 
-/-- (b) block cursors under wrap (since c40862fa: the wrapper index is `rng.start`) — every block -/
+/-- (b) block cursors under wrap (since edf685fb: the wrapper index is `rng.start`) — every block -/
 theorem wrap_blockCoh (t n : Tree) (bp : Path) (a : Attr) (lo hi : Nat) (ctor : List Tree → Tree)
     (wa : Attr) (hd : WrapDirect ctor wa)
     (hv : t.get? bp = some n) (hlo : lo < hi) (hhi : hi ≤ (n.children a).length) :
@@ -289,9 +289,11 @@ theorem wrap_coherentB (t n : Tree) (bp : Path) (a : Attr) (lo hi : Nat) (ctor :
   { toCoherent := wrap_coherent t n bp a lo hi ctor wa hd hv (Nat.le_of_lt hlo) hhi
     block := wrap_blockCoh t n bp a lo hi ctor wa hd hv hlo hhi }
 
-/-- the literal model of `DoAddLoop(guard=True)` (since 7d3e13bb): wrap the statement in the guard
-    `if`, then wrap that `if` (same position) in the loop, compose the two forwardings — coherent
-    for every cursor, by `wrap_coherentB` twice and `compose_coherentB` -/
+/-- the REPAIRED construction of `add_loop(guard=True)` would be coherent: wrap the statement in the
+    guard `if`, then wrap that `if` (same position) in the loop, compose the two forwardings —
+    coherent for every cursor, by `wrap_coherentB` twice and `compose_coherentB`.  (Not what the code
+    does: the repair changes a golden test output and was not admitted; see
+    `wrap_not_direct_counterexample` for the current behaviour.) -/
 theorem addLoopGuard_coherent (t n : Tree) (bp : Path) (a : Attr) (i : Nat) (lIf lFor : Nat)
     (hv : t.get? bp = some n) (hi : i < (n.children a).length) :
     CoherentB t
@@ -316,7 +318,7 @@ example : Coherent exT (wrap exT [(.body, 0)] .body 0 3 (forCtor 30) .body).1
 def exWrapAll : Tree × Fwd := wrap exT [(.body, 0)] .body 0 3 (forCtor 30) .body
 
 /-- wrap `[s2; s3; s4]`: the block cursor `[s3; s4]` is found below the wrapper (index 0 of the loop
-    body), at `[1,3)` of the wrapper's body.  (Before c40862fa it was sent below index
+    body), at `[1,3)` of the wrapper's body.  (Before edf685fb it was sent below index
     `blk_rng.start = 1`, a node that no longer exists.) -/
 example :
     exWrapAll.2 (.block [(.body, 0)] .body 1 3) = .ok (.block [(.body, 0), (.body, 0)] .body 1 3) ∧
@@ -326,7 +328,7 @@ example :
 example : CoherentB exT exWrapAll.1 exWrapAll.2 :=
   wrap_coherentB exT (.mk 1 1 [leaf 2, leaf 3, leaf 4] []) _ _ _ _ _ _ (forCtor_direct 30) rfl (by decide) (by decide)
 
-/-- `add_loop(s3, guard=True)` in the example tree -/
+/-- the repaired `add_loop(s3, guard=True)` in the example tree -/
 example : CoherentB exT
     (wrap (wrap exT [(.body, 0)] .body 1 2 (ifCtor 31) .body).1 [(.body, 0)] .body 1 2 (forCtor 30) .body).1
     ((wrap (wrap exT [(.body, 0)] .body 1 2 (ifCtor 31) .body).1 [(.body, 0)] .body 1 2 (forCtor 30) .body).2.comp
@@ -335,10 +337,11 @@ example : CoherentB exT
 
 def exWrapGuard : Tree × Fwd := wrap exT [(.body, 0)] .body 1 2 (guardCtor 30) .body
 
-/-- `WrapDirect` is necessary: with a wrapper that nests the block one level deeper (what
-    `add_loop(guard=True)` did before 7d3e13bb, DESIGN F16) the cursor of the wrapped statement `s3`
-    lands on the inner `if` (label 31), not on `s3`.  Not current behaviour of any primitive: the
-    harness checks `WrapDirect` on every `_wrap` the primitives perform. -/
+/-- `WrapDirect` is necessary, and `DoAddLoop(guard=True)` violates it (DESIGN F16, current
+    behaviour, recorded finding): its wrapper nests the block one level deeper, and the cursor of the
+    wrapped statement `s3` lands on the inner `if` (label 31), not on `s3`.  The harness checks
+    `WrapDirect` on every `_wrap` the primitives perform; `add_loop(guard=True)` is the only one
+    that fails it. -/
 theorem wrap_not_direct_counterexample :
     exWrapGuard.2 (.node [(.body, 0), (.body, 1)]) = .ok (.node [(.body, 0), (.body, 1), (.body, 0)]) ∧
     labelAt exWrapGuard.1 [(.body, 0), (.body, 1), (.body, 0)] = some 31 ∧
